@@ -275,7 +275,7 @@ def make_jobs(tier, seed, build):
     nmax = 2 if tier == "quick" else 3
     for gname in GRAMMARS:
         g = CORPUS[gname]
-        for shape in tok.all_shapes_by_words(nmax, g.decl):
+        for shape in tok.all_shapes_by_words(nmax, g.decl, full_upto=2):
             jobs.append({"id": "%s:%s" % (gname, ",".join(shape)), "grammar": gname, "shape": shape})
     import itertools
     wmax, lmax = (2, 4) if tier == "quick" else (3, 4)
@@ -347,7 +347,7 @@ def finish(results, jobs, build, out, tier, seed, wall):
         "solver_time_s": st["solver_s"],
         "mir_statements_executed": st["steps"],
         "outcome_classes": fw.merge_counts(results, "classes"),
-        "bounds": {"argv_words": "0..=%d (up to twice as many items)" % nmax, "grammars": GRAMMARS, "feature_sets": ["{}", "{autocomplete,docgen,batteries}"],
+        "bounds": {"largest_size": (tok.REDUCED_NOTE if tier != "quick" else "all forms"), "argv_words": "0..=%d (up to twice as many items)" % nmax, "grammars": GRAMMARS, "feature_sets": ["{}", "{autocomplete,docgen,batteries}"],
                    "run_inner_prologue": "grammars %s; argv of 1..=%d words of 1..=4 symbolic bytes over a 5-letter alphabet per grammar (dash, equals, two declared shorts, one other), total <= %d bytes" % (sorted(PROLOGUE_GRAMMARS), 2 if tier == "quick" else 3, 6 if tier == "quick" else 8)},
         "jobs": len(jobs),
         "functions_encoded": sorted(fw.merge_counts(results, "fn_hits")),
